@@ -90,7 +90,7 @@ class Machine:
         rng = self.rng
         parents = [m] + [s for s in m.all_spaces() if s.depth() < self.cfg.get("max_depth", 2)]
         parent = rng.choice(parents)
-        pool = gen.TOPS if parent is m else gen.CHILDREN
+        pool = gen.TOPS if parent is m else gen.CHILDREN      # the same pool at every depth: A.U.V and A.V.V can coexist
         if self.cfg.get("clash"):
             pool = self.cfg["clash_pool"]
         free = [n for n in pool if n not in self.used_names(parent)] if not self.cfg.get("clash") else list(pool)
@@ -374,9 +374,14 @@ class Machine:
         if s.formula is not None and rng.random() < self.cfg.get("p_item_eval", 0.5):
             iargs = [rng.randrange(0, 3) for p, dflt in s.formula["params"] if dflt is None or rng.random() < 0.4]
             loc = loc + [["item", iargs, rng.choice(["idx", "call"])]]
-        elif isinstance(s.parent, rm.RSpace) and s.parent.formula is not None and rng.random() < self.cfg.get("p_item_eval", 0.5):
-            iargs = [rng.randrange(0, 3) for p, dflt in s.parent.formula["params"] if dflt is None or rng.random() < 0.4]
-            loc = loc[:-1] + [["item", iargs, rng.choice(["idx", "call"])], loc[-1]]
+        elif isinstance(s.parent, rm.RSpace) and rng.random() < self.cfg.get("p_item_eval", 0.5):
+            # the nearest parametrised ancestor: evaluate inside its ItemSpace (dynamic child, grandchild, ...)
+            anc, up = s.parent, 1
+            while isinstance(anc, rm.RSpace) and anc.formula is None:
+                anc, up = anc.parent, up + 1
+            if isinstance(anc, rm.RSpace):
+                iargs = [rng.randrange(0, 3) for p, dflt in anc.formula["params"] if dflt is None or rng.random() < 0.4]
+                loc = loc[:-up] + [["item", iargs, rng.choice(["idx", "call"])]] + loc[-up:]
         return {"op": "eval", "loc": loc, "name": n, "args": args, "spell": spell}
 
     GENS = {
